@@ -327,8 +327,13 @@ def run(ctx):
     seg = "cairo_lang_starknet_classes::contract_segmentation::"
     ffs = F.find1(seg + "find_functions_segments")
     g("R19.5", "segments:NoFunctionStartAtZero", ffs, CallResult("require", "Break"), bypass="none")
+    # the function itself, its closures, and the same-module helpers it calls directly
+    scope = list(F.with_closures(ffs))
+    for c in ffs.calls():
+        if c.path in F.fns and c.path.startswith(seg):
+            scope += F.with_closures(F.fns[c.path])
     ctx.ob("R19.5", "segments:starts<-entry_point", any(
-        "entry_point" in place_fields(p) for f in F.with_closures(ffs) for _, _, st in f.stmts() if st[0] == "a"
+        "entry_point" in place_fields(p) for f in scope for _, _, st in f.stmts() if st[0] == "a"
         for p in rvalue_places(st[2])), "segment starts are the functions' entry statements", ffs.where())
     for callee in ("finalize", "visit_statement"):
         cs = ffs.calls_to("FunctionInfo::" + callee)
